@@ -112,7 +112,15 @@ type Gen struct {
 	Tombstones                bool
 	Tenants                   int // 0: all TenantID 0... n>0: ids drawn from 1..n
 	HeadAnywhere              bool
-	seq                       int
+	// SameNames: with Tenants > 0, a repository may reuse the name of an earlier
+	// repository of another tenant (multi-tenant shards are named by id, so two tenants
+	// can own repositories of the same name, also inside one compound shard).
+	SameNames bool
+	// ZeroIDs: some repositories have no numeric id (plain zoekt-index / zoekt-git-index
+	// without a repoid, old shards): ID 0.
+	ZeroIDs bool
+	prev    []*Repo
+	seq     int
 }
 
 func NewGen(r *rand.Rand) *Gen {
@@ -271,8 +279,28 @@ func (g *Gen) Repo(idx int) *Repo {
 		Name: fmt.Sprintf("%s%d", []string{"repo", "github.com/a/b", "abc", "x/ab", "ab"}[g.R.IntN(5)], g.seq),
 		ID:   uint32(100 + g.seq),
 	}
+	if g.ZeroIDs && g.R.IntN(3) == 0 {
+		r.ID = 0
+	}
 	if g.Tenants > 0 {
 		r.TenantID = 1 + g.R.IntN(g.Tenants)
+		if g.SameNames && g.Tenants > 1 && len(g.prev) > 0 && g.R.IntN(3) == 0 {
+			// a name is unique within a tenant: take a tenant that has no repository of it yet
+			o := g.prev[g.R.IntN(len(g.prev))]
+			taken := map[int]bool{}
+			for _, x := range g.prev {
+				if x.Name == o.Name {
+					taken[x.TenantID] = true
+				}
+			}
+			for t := 1; t <= g.Tenants; t++ {
+				if cand := 1 + (r.TenantID+t-1)%g.Tenants; !taken[cand] {
+					r.Name, r.TenantID = o.Name, cand
+					break
+				}
+			}
+		}
+		g.prev = append(g.prev, r)
 	}
 	nb := 1 + g.R.IntN(3)
 	if g.R.IntN(12) == 0 {
@@ -410,4 +438,3 @@ func (g *Gen) Corpus() *Corpus {
 	}
 	return c
 }
-
